@@ -890,7 +890,7 @@ func (fx *Fx) spawnedSenderCheck(st *State, s *ast.GoStmt) {
 			}
 		}
 	}
-	fx.c.oblige(st, "blocking", "spawned-sender("+shortKey(fi.Key)+")", has, "a goroutine that sends traces is a registered sender of the tracer: "+shortKey(fi.Key)+" defers the Done of a sender handle", fx.w.pos(s.Pos()))
+	fx.c.oblige(st, "blocking", "spawned-sender("+shortKey(fi.Key)+") @C07", has, "a goroutine that sends traces is a registered sender of the tracer: "+shortKey(fi.Key)+" defers the Done of a sender handle", fx.w.pos(s.Pos()))
 }
 
 // spawnTarget evaluates the operands of a go/defer call and returns the code id term.
